@@ -762,6 +762,13 @@ def run(ctx, rep):
 
 
 def replay(ctx, rep, case):
+    """Re-run one stored case.  Violations that are open known findings are printed, not counted."""
+    tmp = type(rep)()
+    _replay(ctx, tmp, case)
+    bc.transfer_new_violations(ID, tmp, rep)
+
+
+def _replay(ctx, rep, case):
     k = case.get('kind')
     if k == 'ts':
         x0 = ts_input(case)
